@@ -50,8 +50,29 @@ def num (c : Cfg) (s : FStr) (tk : String) : Option Nat :=
   else if tk.startsWith "@rem" then tail (c.L - curLen) (tk.drop 4).toString
   else tk.toNat?
 
+/-- one segment of a source payload: `<hex bytes>` or `<hex pattern>x<count>` (the pattern repeated
+    cyclically up to exactly `count` bytes, `count ≤ 2^20`); same rules as `decodeSrc` in the harness -/
+def segDecode (seg : String) : Option (List Nat) :=
+  match seg.splitOn "x" with
+  | [h] => if h.isEmpty || h == "-" then none else hexDecode h
+  | [h, n] =>
+    if h.isEmpty || h == "-" || n.isEmpty || n.length > 7 || !(n.all Char.isDigit) then none
+    else match hexDecode h, n.toNat? with
+      | some pat, some k =>
+        if pat.isEmpty || k > 2 ^ 20 then none
+        else
+          let a := pat.toArray
+          some ((List.range k).map fun i => a[i % a.size]!)
+      | _, _ => none
+  | _ => none
+
+/-- source payload: `-` (empty) or segments joined by `+` -/
+def srcDecode (s : String) : Option (List Nat) :=
+  if s == "-" then some []
+  else (s.splitOn "+").foldlM (fun acc seg => (segDecode seg).map (acc ++ ·)) []
+
 def srcOf (pfx : String) (tk : String) : Option (List Nat) :=
-  if tk.startsWith pfx then hexDecode (tk.drop pfx.length).toString else none
+  if tk.startsWith pfx then srcDecode (tk.drop pfx.length).toString else none
 
 def chOf (tk : String) : Option Nat :=
   match hexDecode tk with
@@ -248,6 +269,13 @@ def step' (st : St) (line : String) : St × String :=
       let cu : Cfg := ⟨9, 2 ^ 64, 256⟩
       ({ c := c, cu := cu, w := some (World.init c cu) }, "ok")
     | none => (st, "bad-op")
+  | ["new", l, su] =>      -- capacity of `u` given explicitly (arguments of type FixedString<S> longer than 255 / 65535)
+    match l.toNat?, su.toNat? with
+    | some l, some su =>
+      let c : Cfg := ⟨l, 2 ^ 64, lengthMod l⟩
+      let cu : Cfg := ⟨su, 2 ^ 64, lengthMod su⟩
+      ({ c := c, cu := cu, w := some (World.init c cu) }, "ok")
+    | _, _ => (st, "bad-op")
   | toks =>
     match st.w with
     | none => (st, "bad-op")
